@@ -74,6 +74,73 @@ struct Checker {
 	{
 		return (ch >= '0' && ch <= '9') || ch == '-' || ch == '+' || ch == '.' || ch == 'e' || ch == 'E';
 	}
+	// true iff T[from, to) is only whitespace and comments (the last one may reach `to` unterminated)
+	bool only_ws_and_comments(size_t from, size_t to) const
+	{
+		size_t i = from;
+		while (i < to)
+		{
+			unsigned char ch = (unsigned char)T[i];
+			if (ch == ' ' || ch == '\t' || ch == '\n' || ch == '\r' || ch == '\f' || ch == '\v' || ch == 0)
+			{
+				i++;
+				continue;
+			}
+			if (ch == '/' && i + 1 < to && T[i + 1] == '*')
+			{
+				size_t e = T.find("*/", i + 2);
+				if (e == std::string::npos || e + 2 > to)
+					return true; // the one-call parse itself stopped inside this comment (NUL / end of text)
+				i = e + 2;
+				continue;
+			}
+			if (ch == '/' && i + 1 < to && T[i + 1] == '/')
+			{
+				size_t e = T.find('\n', i + 2);
+				if (e == std::string::npos || e + 1 > to)
+					return true; // a line comment running to the end of what the one-call parse consumed
+				i = e + 1;
+				continue;
+			}
+			return false;
+		}
+		return true;
+	}
+	// The first document against ONE call on the whole text (not only prefix by prefix: a defect that is the same in
+	// both would cancel out): if the whole text parses, every chunking must deliver the same value, and may stop
+	// early only where nothing but whitespace and complete comments lies between its end and the one-call end.
+	void first_doc_vs_whole(json_tokener *tok, const POut &adj, const std::vector<size_t> &cuts, size_t fed_to, bool utf8_mid)
+	{
+		const POut &whole = oneshot(0, T.size());
+		if (whole.err != json_tokener_success)
+			return;
+		std::string why;
+		bool bad = false;
+		if (adj.err == json_tokener_success)
+		{
+			if (!same_val(whole.v, adj.v, why, DBL_BITS))
+				bad = true;
+			else if ((size_t)adj.end > (size_t)whole.end || !only_ws_and_comments((size_t)adj.end, std::min((size_t)whole.end, T.size())))
+			{
+				bad = true;
+				why = "the chunked parse reports the document complete at offset " + str(adj.end) + ", one call on the whole text consumes " + str(whole.end) +
+				      " bytes and more than whitespace / complete comments lies between";
+			}
+		}
+		else if (adj.err != json_tokener_continue && !utf8_mid)
+		{
+			bad = true;
+			why = "the whole text parses in one call";
+		}
+		if (!bad)
+			return;
+		json_tokener_free(tok);
+		std::string cs;
+		for (size_t x : cuts)
+			cs += str(x) + ",";
+		ctx.fail("whole-differs", "flags=" + str(flags) + " depth=" + str(depth) + " cuts=[" + cs + "] after " + str(fed_to) + " bytes the chunked parse gives " + adj.show_() +
+		                              " | one call on the whole text " + whole.show_() + " | " + why + " | text=" + quote(T, 300));
+	}
 	// cuts: ascending positions strictly inside (0,n)
 	void partition(const std::vector<size_t> &cuts)
 	{
@@ -118,6 +185,8 @@ struct Checker {
 				                              ": chunked " + adj.show_() + " | one-shot " + exp.show_() + " | " + why +
 				                              " | text=" + quote(T, 300));
 			}
+			if (base == 0 && !known_numsplit)
+				first_doc_vs_whole(tok, adj, cuts, e, r.err == json_tokener_error_parse_utf8_string && e < T.size()); // (a character cut by a chunk boundary is an error by design: tests/test_parse pins it)
 			if (r.err == json_tokener_continue)
 			{
 				s = e;
